@@ -2022,10 +2022,7 @@ impl<'a, SE: extensions::ShellExtensions> WordExpander<'a, SE> {
         replacement: &str,
         match_kind: &SubstringMatchKind,
     ) -> String {
-        let replace_all = matches!(
-            match_kind,
-            brush_parser::word::SubstringMatchKind::Anywhere
-        );
+        let replace_all = matches!(match_kind, brush_parser::word::SubstringMatchKind::Anywhere);
 
         // N.B. We don't use the regex crate's replace functions: the replacement text is
         // literal (a `$1` in it is not a capture group reference), and an empty match at the
